@@ -664,7 +664,7 @@ class Agent(object):
             comp.stop()
             if not _is_technical(comp.name):
                 try:
-                    self.discovery.unregister_computation(comp.name)
+                    self.discovery.unregister_computation(comp.name, self.name)
                 except UnreachableAgent:
                     # when stopping the agent, the orchestrator / directory might have
                     # already left.
